@@ -260,6 +260,8 @@ class Repo:
                         self.modules[rel].reindex()
                         self.canonicalised = getattr(self, 'canonicalised', {})
                         self.canonicalised[rel] = cn
+                    from .canon import renumber
+                    renumber(self.modules[rel])
             except SyntaxError as e:
                 self.errors.append('%s: %s' % (rel, e))
         self._fi = {}
@@ -310,7 +312,7 @@ class Repo:
     def site(self, qual, node=None):
         rel = qual.partition('::')[0]
         if node is not None and hasattr(node, 'lineno'):
-            return '%s:%d' % (rel, node.lineno)
+            return '%s:%d' % (rel, getattr(node, '_orig_lineno', node.lineno))
         return rel
 
 
